@@ -41,6 +41,7 @@ class LoggingLock(DLock):
 
     def acquire(self, blocking=True, timeout=-1):
         r = DLock.acquire(self, blocking, timeout)
+        self.h.held[self.h.who()] = self.h.held.get(self.h.who(), 0) + 1
         self.h.log("acq")
         return r
 
@@ -48,6 +49,7 @@ class LoggingLock(DLock):
 
     def release(self):
         self.h.log("rel")
+        self.h.held[self.h.who()] = self.h.held.get(self.h.who(), 0) - 1
         DLock.release(self)
 
     def __exit__(self, *a):
@@ -110,6 +112,13 @@ DEFAULT_CONF = {"warn": True, "eager": False}
 
 class TsHarness:
     def __init__(self, n, k, m, null_lock=False, conf=None):
+        try:
+            self._init(n, k, m, null_lock, conf)
+        except BaseException:                 # the driver code failed while the harness was being set up: undo the patches
+            self.close()
+            raise
+
+    def _init(self, n, k, m, null_lock, conf):
         self.ts = repo_import("cassandra.timestamps")
         for v in range(0, m + 1):
             if int(v / 1e6 * 1e6) != v:
@@ -134,10 +143,23 @@ class TsHarness:
             last = property(_get, _set)
 
         self.sched = DetSched()
+        # Whichever way the generator gets its lock (created in __init__, lazily, per call, ...), it gets an
+        # instrumented one: the Lock class of the timestamps module is replaced before the generator exists.
+        # Mutual exclusion is judged on the effects (acq / rel events of whatever locks there are, `last` touched by
+        # a thread that holds none), not on one particular lock object.
+        self.held = {}
+        self.locks = []
+        self.saved_lock_class = self.ts.Lock
+
+        def make_lock(*a, **kw):
+            lk = NullLock() if null_lock else LoggingLock("ts%d" % (len(self.locks) + 1), self)
+            self.locks.append(lk)
+            return lk
+        self.ts.Lock = make_lock
         # the configuration only governs logging: warn_on_drift, and threshold / interval 0 ("eager") or the defaults
         self.gen = Probe(warn_on_drift=bool(conf["warn"]), warning_threshold=0 if conf["eager"] else 1,
                          warning_interval=0 if conf["eager"] else 1)
-        self.gen.lock = NullLock() if null_lock else LoggingLock("ts", self)
+        self.held.clear()
         self.clock = Clock(self)
         self.saved_time, self.saved_log = self.ts.time, self.ts.log
         self.ts.time = self.clock
@@ -149,8 +171,14 @@ class TsHarness:
             self.sched.spawn(str(t), self._body, t)
 
     def close(self):
-        self.sched.close()
-        self.ts.time, self.ts.log = self.saved_time, self.saved_log
+        if getattr(self, "sched", None) is not None:
+            self.sched.close()
+        ts = getattr(self, "ts", None)
+        if ts is not None:
+            if hasattr(self, "saved_time"):
+                ts.time, ts.log = self.saved_time, self.saved_log
+            if hasattr(self, "saved_lock_class"):
+                ts.Lock = self.saved_lock_class
 
     def _body(self, t):
         for _ in range(self.k):
@@ -163,7 +191,7 @@ class TsHarness:
         a = self.sched.active
         if a is None:
             return                                   # the harness itself / __init__ before the threads exist
-        if getattr(self.gen.lock, "owner", None) is not a:
+        if self.held.get(int(a.name), 0) <= 0:
             self.log("unlocked")
 
     def who(self):
@@ -208,10 +236,31 @@ class TsHarness:
             self.step(t)
         raise Divergence("thread %d neither finishes nor asks for the lock" % t)
 
+    def all_to_lock(self, rounds=None, limit=400):
+        """Bring every thread to the point where it asks for a lock.  Whatever the code does before its first
+        acquisition (e.g. creating the lock lazily: check, then act) is interleaved adversarially: `rounds` rounds
+        of ONE LINE per thread in turn, then each thread in turn runs on to its lock request (rounds=None: line by
+        line in turn all the way).  The caller varies `rounds` from behaviour to behaviour."""
+        start = len(self.events)
+        for r in range(limit):
+            if rounds is not None and r >= rounds:
+                for t in range(1, self.n + 1):
+                    self.to_lock(t)
+                return self.events[start:]
+            moved = False
+            for t in range(1, self.n + 1):
+                th = self.sched.threads[str(t)]
+                if th.done or (th.waiting_for is not None and th.at.startswith("acq:")):
+                    continue
+                self.step(t)
+                moved = True
+            if not moved:
+                return self.events[start:]
+        raise Divergence("threads neither finish nor ask for the lock")
+
     def project(self):
-        lock = self.gen.lock
-        owner = getattr(lock, "owner", None)
-        return {"lock": int(owner.name) if owner is not None else 0,
+        holders = sorted(t for t, c in self.held.items() if c > 0 and t != 0)
+        return {"lock": (holders[0] if len(holders) == 1 else tuple(holders)) if holders else 0,
                 "last": self.gen.__dict__["_probe_last"], "warnings": self.warnings,
                 "rets": {t: list(v) for t, v in self.rets.items()}}
 
@@ -232,7 +281,10 @@ def probe_design():
     """One call of the real generator under the harness: is the clock read before the lock is acquired?
     Returns True (ReadOutsideLock), False (read under the lock) or None when the call shows neither order
     (no lock acquisition or no clock reading at all - the replay against the pinned design will then diverge)."""
-    h = TsHarness(1, 1, 1)
+    try:
+        h = TsHarness(1, 1, 1)
+    except Exception:                                       # noqa - misbehaving code under test
+        return None
     h.clock.next = 1
     try:
         try:
@@ -247,23 +299,25 @@ def probe_design():
         h.close()
 
 
-def replay(consts, states, corrupt=None):
+def replay(consts, states, corrupt=None, start_rounds=None):
     """Replay one behaviour (list of spec states, first = initial). Returns None or a divergence dict.
     Also returns the number of blocking checks made: (divergence, blocked_checks).
     consts["ReadOutsideLock"] (bool) is the design the behaviour was generated for."""
     outside = bool(consts.get("ReadOutsideLock", False))
     c0 = states[0]["conf"]
-    h = TsHarness(consts["N"], consts["K"], consts["M"], conf={"warn": bool(c0["warn"]), "eager": bool(c0["eager"])})
+    try:
+        h = TsHarness(consts["N"], consts["K"], consts["M"], conf={"warn": bool(c0["warn"]), "eager": bool(c0["eager"])})
+    except Exception as ex:                                 # noqa - the driver code fails under the harness
+        return ({"step": 0, "action": {"name": "construct", "t": 0, "v": 0}, "kind": "construct",
+                 "diff": {"what": "constructing the generator raised %r" % (ex,)}}, 0)
     blocked_checks = 0
     step_no = 0
     try:
         try:
-            for t in range(1, h.n + 1):
-                if outside:
-                    continue                            # the first thing a call does is to read the clock
-                ev = h.to_lock(t)
+            if not outside:                             # (outside: the first thing a call does is to read the clock)
+                ev = h.all_to_lock(start_rounds)
                 if ev:
-                    raise Divergence("thread %d acts before asking for the lock: %s" % (t, ev))
+                    raise Divergence("threads act before asking for the lock: %s" % (ev,))
             for step_no in range(1, len(states)):
                 st = states[step_no]
                 a = st["act"]
@@ -330,7 +384,12 @@ def replay(consts, states, corrupt=None):
 def record(consts, rng, null_lock=False, conf=None):
     """Run a seeded random line-level schedule; returns (trace events for Trace_Timestamps, returned values).
     The first event carries the generator's configuration."""
-    h = TsHarness(consts["N"], consts["K"], consts["M"], null_lock=null_lock, conf=conf)
+    try:
+        h = TsHarness(consts["N"], consts["K"], consts["M"], null_lock=null_lock, conf=conf)
+    except Exception as ex:                                 # noqa - the driver code fails under the harness
+        c = dict(conf or DEFAULT_CONF)
+        return ([{"e": "conf", "warn": bool(c["warn"]), "eager": bool(c["eager"]), "t": 0, "v": 0, "x": 0, "w": 0},
+                 {"e": "raise", "t": 0, "v": 0, "x": 0, "w": 0, "cls": type(ex).__name__}], [])
     h.clock.rng, h.clock.M = rng, consts["M"]
     try:
         try:
